@@ -457,6 +457,42 @@ def monoCheckGo (classes : List GDef) (tyOf : List GTy) : List GTy → List Def 
 def monoCheck (classes : List GDef) (tyOf : List GTy) (defs : List Def) : Bool :=
   monoCheckGo classes tyOf tyOf defs
 
+/-! ### Which declaration is the scrutinee's type resolved to: type parameters in scope
+
+A scrutinee may have a type parameter as its static type (`x: T` with `T : EnumClass`); patterns are
+then checked against the class `T` is bounded by (typing_context.rs:137-143 `nominal_type_upper_bound`
+→ `resolve_to_potentially_in_scope_type_parameter_bound`, 126-135: the FIRST parameter of that name
+in `available_type_parameters`).  The list is built in `type_check_module` (main_checker.rs:1869-1880):
+for a method, the class's type parameters followed by the method's own; for a static function, the
+function's own parameters only (the class's parameters are not in scope there, so a function may
+reuse their names). -/
+
+/-- (name, bound: type id of the bounding class instance, `none` = unbounded) -/
+abbrev TParams := List (Nat × Option Nat)
+
+def scopeOf (isMethod : Bool) (classParams memberParams : TParams) : TParams :=
+  if isMethod then classParams ++ memberParams else memberParams
+
+/-- `none`: no such parameter in scope; `some none`: in scope, unbounded; `some (some t)`: bounded by `t` -/
+def resolveTParam : TParams → Nat → Option (Option Nat)
+  | [], _ => none
+  | (n, b) :: rest, name => if n = name then some b else resolveTParam rest name
+
+/-- the static type of a scrutinee: a type instance, or a type parameter -/
+inductive STy where
+  | inst (t : Nat)
+  | tparam (name : Nat)
+  deriving Repr, Inhabited
+
+/-- the type id patterns are checked against (`none`: nothing resolvable — not a struct, not an enum) -/
+def scrutineeType (scope : TParams) : STy → Option Nat
+  | .inst t => some t
+  | .tparam name => (resolveTParam scope name).bind id
+
+/-- a method's own type parameter that reuses the name of a class type parameter: `NameAlreadyBound` -/
+def tparamCollision (isMethod : Bool) (classParams memberParams : TParams) : Bool :=
+  isMethod && memberParams.any (fun m => classParams.any (fun c => c.1 = m.1))
+
 /-! ### Decidable forms of the remaining hypotheses, for a finite type table
 
 `cxOf` is the checker context the driver derives from the table; `cxOkCheck` / `nodupCheck` decide
